@@ -234,7 +234,8 @@ CLAIMS = {
              "exhaustiveness of the field-kind switch against the enum, a frozen 16-row table field kind -> LogMsg "
              "getter and default date/time format, single funnel into append() with the field definition, width and "
              "alignment applied in one place, pending options consumed in addField() on every path, separator guard, "
-             "attribute lookup order by dominance and guard, newest-first search, add/remove pairing of scoped "
+             "attribute lookup order by dominance and guard (message attributes through the parent chain of the attribute "
+             "object, own value before the parent's, before global ones), newest-first search, add/remove pairing of scoped "
              "attributes, use of the strftime() result.",
         note="trusts clang AST/CFG; iostream manipulators and strftime behave as documented; the field-kind table is "
              "frozen in the checker (a new field kind fails the check until the table is extended)",
@@ -255,7 +256,10 @@ CLAIMS = {
              "atoms against the specification table, with mutual exclusion of the two passes; path counting on "
              "ArgumentDesc::print/printArguments (each pass once, keys and description of every visible argument "
              "streamed exactly once, nothing for invisible ones, no early exit); description registered on every add "
-             "path; branch rules of the single-argument help incl. canonical-key lookup. Layout is not decided.",
+             "path; branch rules of the single-argument help incl. canonical-key lookup; one settings object per handler "
+             "family (a sub-group shares the UsageParams object of its main handler; replacing a handler's settings "
+             "object must re-target its description printer - this last rule reports an open, recorded finding on "
+             "Handler::setUsageParams, see known_findings.json). Layout is not decided.",
         note="trusts clang AST/CFG; TypedArgBase property getters report the configured properties",
         also=("engine A (cfg.py)",),
         technique="static analysis: exhaustive truth table of the predicate + CFG path counting"),
@@ -314,7 +318,8 @@ CLAIMS = {
              "invariants mDataStart <= mDataEnd <= N and mWritePos <= N are assumed at entry and proved at every exit "
              "and inductively around the refill loop; every memcpy/memmove, buffer subscript and hand-off to the "
              "virtual source/sink carries bounds obligations against the N-byte buffer and the caller's len bytes; a "
-             "progress obligation shows every refill can receive at least one byte (requests > N are refused first). "
+             "progress obligation shows every refill can receive at least one byte (requests > N are refused first - and "
+             "only those: get() ends in an exception exactly for len > N, for every buffer state). "
              "All obligations are discharged for all request sizes and all source chunkings. The byte-stream "
              "equality itself is proved as a refinement with ghost counters and content invariants over the write log: "
              "read side - fetched == consumed + window and buf[ start + k] == stream[ consumed + k] for every k of "
@@ -334,7 +339,8 @@ CLAIMS = {
         text="Static lockset/dominance and initialisation-order analysis of every Singleton<T>::instance/reset and "
              "ManagedThread constructor instantiation: decides the structural necessary conditions (every access to "
              "the shared pointer under the static mutex, one null-tested construction site, flag initialised before "
-             "the thread starts, atomic flag set/cleared around the user function) for all schedules at once; it does "
+             "the thread starts, atomic flag set/cleared around the user function, isActive() reports that flag and consults "
+             "nothing else) for all schedules at once; it does "
              "not execute any interleaving.",
         note="trusts clang's AST/CFG, the C++ rules for base/member initialisation order and the semantics of "
              "std::mutex/lock_guard/atomic",
